@@ -564,3 +564,30 @@ def ref_pair_rule(ctx, rule, why):
                   f'the stored reference frequency and wavelength are not the same point (f x lambda != c) when {lab}: {why}',
                   f'f_ref = {vkey(pa)[:80]} ; lambda_ref = {vkey(pb)[:80]}')
     return n
+
+
+REQUEST_KEY_RENAMES = {'bidir': 'bidirectional', 'request_id': 'request-id'}
+
+
+def request_keys_rule(ctx, rule, why):
+    """requests_from_json builds a request from the JSON entry of the same name: every `'<field>': req[..]['<key>']` entry of the
+    parameter dict reads the key named like the field (two documented renames)"""
+    repo = ctx.repo
+    f = repo.func('gnpy.tools.json_io', 'requests_from_json')
+    n = 0
+    for d in [x for x in ast.walk(f.node) if isinstance(x, ast.Dict)]:
+        keys = [k.value for k in d.keys if isinstance(k, ast.Constant)]
+        if not {'source', 'destination'} <= set(keys):
+            continue
+        for k, v in zip(d.keys, d.values):
+            if not isinstance(k, ast.Constant):
+                continue
+            vv = v
+            if isinstance(vv, ast.JoinedStr) and len(vv.values) == 1 and isinstance(vv.values[0], ast.FormattedValue):
+                vv = vv.values[0].value
+            if isinstance(vv, ast.Subscript) and isinstance(vv.slice, ast.Constant) and isinstance(vv.slice.value, str):
+                n += 1
+                want = REQUEST_KEY_RENAMES.get(k.value, k.value)
+                ctx.check(rule, f'{site(f, v)} {k.value}', vv.slice.value in (want, want.replace('_', '-')), key(f, f'request-key|{k.value}'),
+                          f"the request field '{k.value}' is read from the JSON key '{vv.slice.value}': {why}", ast.unparse(v)[:80])
+    return n
